@@ -15,6 +15,8 @@
 **   mode=grid|show|missing|ladder   grid: specification grid;  show: %$ on containers;
 **                              missing: too few arguments;  ladder: chunks of exactly N output
 **                              characters for every N in 1..n (n=300) and around powers of two up to pmax, three sinks, follow-up print
+**                              repeat: argument lists holding the same object several times;
+**                              recycle: sinks created and destroyed per formatting, alternating types
 **   conv=<letters>             conversions handled by this instance (from "diuoxXcsfFeEgGaAp$")
 **   grid=full|mid|small        full: width {none,1,5,12} x precision {none,.0,.3,.10}, all values,
 **                              mid:  width {none,5} x precision {none,.3}, values of level <= 1,
@@ -517,6 +519,7 @@ static void grid_conv(char conv) {
 static void missing_conv(char conv) {
   struct rule r;
   conv_rule(conv, &r);
+  cur_valtype = "Int";          /* the %$ argument of this mode is an Int */
   var Q = $S("Qq"); (void)Q;
   var I7 = $I(-7);
   for (int mi = 0; mi < r.nmods; mi++) {
@@ -1016,6 +1019,241 @@ static void ladder_mode(void) {
   vf_extra("ladder_chunks", "%" PRIu64, chunks);
 }
 
+/* ---- repeated objects in the argument list ---------------------------------------------------
+** Every argument sequence of length 2..4 over three distinct objects x, y, z (so (x,x), (x,x,y),
+** (x,y,x,z), (x,y,y), ... are all there), five styles of specification, both sinks, two starts.
+** The i-th specification must format the i-th argument, whatever object it is.
+*/
+
+#define NSTYLES 5
+static const char* STYLEN[NSTYLES] = { "%$-of-Int", "%li", "%s", "%$-of-String", "mixed-types" };
+static int R_len = -1, R_seq = -1, R_style = -1;
+
+static void canon_pattern(const int* q, int L, char* out) {
+  char map[3] = { 0, 0, 0 }; int next = 0; size_t o = 0;
+  for (int i = 0; i < L; i++) {
+    if (!map[q[i]]) map[q[i]] = "xyz"[next++];
+    if (i) out[o++] = ',';
+    out[o++] = map[q[i]];
+  }
+  out[o] = 0;
+}
+
+static void repeat_mode(void) {
+  static char piece[3][2][80];         /* expected text of object j under specification variant v */
+  static const char* specv[3][2];
+  var ref = new_raw(String);
+  for (int style = 0; style < NSTYLES; style++) {
+    if (R_on && R_style >= 0 && style != R_style) continue;
+    var oI0 = $I(7), oI1 = $I(-8), oI2 = $I(4294967301LL);
+    var oS0 = $S("ex"), oS1 = $S("why"), oS2 = $S("zed \"q\"");
+    var oF2 = $F(2.5);
+    var o[3];
+    /* the objects and, per object, the two specification variants used at even / odd positions */
+    for (int j = 0; j < 3; j++) {
+      int isint = style <= 1 || (style == 4 && j == 0);
+      int isflt = style == 4 && j == 2;
+      o[j] = isint ? (j == 0 ? oI0 : j == 1 ? oI1 : oI2) : isflt ? oF2 : (j == 0 ? oS0 : j == 1 ? oS1 : oS2);
+      for (int v = 0; v < 2; v++) {
+        const char* sp = style == 0 || style == 3 ? "%$" : style == 1 ? "%li" : style == 2 ? "%s"
+                       : v == 1 ? "%$" : isint ? "%li" : isflt ? "%5.2f" : "%s";
+        specv[j][v] = sp;
+        if (strcmp(sp, "%$") == 0) {
+          /* reference: show_to of a stand-alone object of the same value */
+          var sa = isint ? (var)$I(c_int(o[j])) : isflt ? (var)$F(c_float(o[j])) : (var)$S(c_str(o[j]));
+          assign(ref, $S(""));
+          show_to(sa, ref, 0); vf.executions++;
+          snprintf(piece[j][v], sizeof piece[j][v], "%s", c_str(ref));
+        }
+        else if (isint) snprintf(piece[j][v], sizeof piece[j][v], sp, (long)c_int(o[j]));
+        else if (isflt) snprintf(piece[j][v], sizeof piece[j][v], sp, c_float(o[j]));
+        else snprintf(piece[j][v], sizeof piece[j][v], sp, c_str(o[j]));
+      }
+    }
+    for (int L = 2; L <= 4; L++) {
+      if (R_on && R_len >= 0 && L != R_len) continue;
+      int nseq = L == 2 ? 9 : L == 3 ? 27 : 81;
+      for (int sq = 0; sq < nseq; sq++) {
+        if (R_on && R_seq >= 0 && sq != R_seq) continue;
+        int q[4] = { 0, 0, 0, 0 };
+        { int t = sq; for (int i = L - 1; i >= 0; i--) { q[i] = t % 3; t /= 3; } }
+        char pat[16]; canon_pattern(q, L, pat);
+        /* non-trivial: an object occurs again and something else follows its second occurrence */
+        int nt = 0;
+        for (int j = 1; j + 1 < L && !nt; j++) {
+          int i = 0; while (q[i] != q[j]) i++;
+          if (i < j && q[i + 1] != q[j + 1]) nt = 1;     /* "the one after the first occurrence" is not the next argument */
+        }
+        size_t fo = 0, eo = 0;
+        FMT[fo++] = '['; EXP[eo++] = '[';
+        for (int i = 0; i < L; i++) {
+          if (i) { fo += sprintf(FMT + fo, ", "); eo += sprintf(EXP + eo, ", "); }
+          fo += sprintf(FMT + fo, "%s", specv[q[i]][i & 1]);
+          eo += sprintf(EXP + eo, "%s", piece[q[i]][i & 1]);
+        }
+        FMT[fo++] = ']'; FMT[fo] = 0; EXP[eo++] = ']'; EXP[eo] = 0;
+        size_t explen = eo;
+        var args = L == 2 ? tuple(o[q[0]], o[q[1]]) : L == 3 ? tuple(o[q[0]], o[q[1]], o[q[2]]) : tuple(o[q[0]], o[q[1]], o[q[2]], o[q[3]]);
+        char* fmt = malloc(fo + 1); memcpy(fmt, FMT, fo + 1);
+        vf_watchdog(60);
+        vf_set_cur("repeat len=%d seq=%d style=%d | arguments (%s) format \"%s\"", L, sq, style, pat, FMT);
+        if (count_nt && nt) vf.nontrivial++;
+        for (int si = 0; si < 2; si++) {
+          if (R_on && R_s >= 0 && si != R_s) continue;
+          for (int k = 0; k < 2; k++) {
+            if (R_on && R_k >= 0 && k != R_k) continue;
+            struct got g;
+            int st = STARTS[si];
+            run_sink(k, st, fmt, args, &g);
+            vf.evaluations++;
+            const char* sym = NULL; char symb[64];
+            if (g.exc) { snprintf(symb, sizeof symb, "raises-%s", vf_exc_name(g.exc)); sym = symb; }
+            else if (!g.prefix_ok) sym = "prefix-damaged";
+            else if (g.len != explen || memcmp(g.text, EXP, explen) != 0) sym = "text-differs";
+            else if (g.ret != st + (int)explen) sym = "position";
+            if (sym) {
+              char lab[200], cs[500];
+              snprintf(lab, sizeof lab, "repeat/%s/args(%s)/%s/%s", STYLEN[style], pat, SINKNAME[k], sym);
+              snprintf(cs, sizeof cs, "repeat len=%d seq=%d style=%d s=%d k=%d | arguments (%s) format \"%s\" start %d sink %s", L, sq, style, si, k, pat, FMT, st, SINKNAME[k]);
+              vf_violation(lab, cs, "print_to(%s, %d, \"%s\") with arguments (%s) wrote '%s' and returned %d; C printf on the values writes '%s' (position %d)",
+                SINKNAME[k], st, FMT, pat, printable(g.text, g.len), g.ret, printable(EXP, explen), st + (int)explen);
+            }
+            if (nt && vf_want_sample()) vf_sample("print_to(%s, %d, \"%s\", (%s)) == '%s'", SINKNAME[k], st, FMT, pat, printable(EXP, explen));
+          }
+        }
+        free(fmt);
+      }
+    }
+  }
+}
+
+/* ---- sink recycling ---------------------------------------------------------------------------
+** Sinks are created and destroyed per formatting, in every sequence of three kinds out of
+** {heap File wrapping an open FILE*, heap File opened with sopen, heap String}; nothing is
+** formatted between the release of one sink and the first formatting into the next, so a new
+** sink that receives the address of the released one (counted) must still behave as what it is.
+*/
+
+#define NRFMT 7
+static const char* RFMT[NRFMT] = { "%d", "%s", "%5.2f", "%$", "plain literal text", "%%", "a5%d%%%s|%$" };
+static const char* RFMTN[NRFMT] = { "%d", "%s", "%5.2f", "%$", "literal", "%%", "mixed" };
+static const char* RKIND[3] = { "File(wrapping FILE*)", "File(sopen)", "String" };
+static const char* RKINDL[4] = { "File-wrap", "File-sopen", "String", "start" };
+static int R_rot = -1;
+
+static void recycle_mode(void) {
+  static char rexp[NRFMT][160]; static size_t rtl[NRFMT];
+  char path[64];
+  snprintf(path, sizeof path, "./h_fmt-recycle-%ld.tmp", (long)getpid());
+  var I42 = $I(-42), Shi = $S("hello"), F3 = $F(3.14159), N99 = $I(99);
+  var targs[NRFMT];
+  targs[0] = tuple(I42); targs[1] = tuple(Shi); targs[2] = tuple(F3); targs[3] = tuple(I42);
+  targs[4] = tuple(); targs[5] = tuple(); targs[6] = tuple(I42, Shi, I42);
+  var t99 = tuple(N99);
+  var pathS = $S(path), modeS = $S("w+");
+  /* expected texts, computed before any recycling (the %$ reference goes through the long-lived String) */
+  char shown[64];
+  assign(SS, $S("")); show_to($I(-42), SS, 0); snprintf(shown, sizeof shown, "%s", c_str(SS));
+  for (int i = 0; i < NRFMT; i++) {
+    int n = 0;
+    switch (i) {
+    case 0: n = snprintf(rexp[i], sizeof rexp[i], "%d", -42); break;
+    case 1: n = snprintf(rexp[i], sizeof rexp[i], "%s", "hello"); break;
+    case 2: n = snprintf(rexp[i], sizeof rexp[i], "%5.2f", 3.14159); break;
+    case 3: n = snprintf(rexp[i], sizeof rexp[i], "%s", shown); break;
+    case 4: n = snprintf(rexp[i], sizeof rexp[i], "plain literal text"); break;
+    case 5: n = snprintf(rexp[i], sizeof rexp[i], "%%"); break;
+    case 6: n = snprintf(rexp[i], sizeof rexp[i], "a5%d%%%s|%s", -42, "hello", shown); break;
+    }
+    rtl[i] = (size_t)n;
+    strcat(rexp[i], "<99>");
+  }
+  uint64_t steps = 0, reused = 0, reused_other_type = 0;
+  static char got[4096];
+  for (int sq = 0; sq < 27; sq++) {
+    if (R_on && R_seq >= 0 && sq != R_seq) continue;
+    for (int rot = 0; rot < NRFMT; rot++) {
+      if (R_on && R_rot >= 0 && rot != R_rot) continue;
+      int kinds[3] = { sq / 9, (sq / 3) % 3, sq % 3 };
+      /* every sequence starts from the same situation: the last formatting went to the long-lived String */
+      assign(SS, $S("")); print_to(SS, 0, "-");
+      /* glibc: objects come from calloc, which does not look into the per-thread cache; fill that cache for
+      ** the sinks' size class so that a released sink goes where the next calloc finds it (only raises the
+      ** measured reuse count below; no verdict depends on it) */
+      { void* t[7]; size_t sz = sizeof(struct Header) + sizeof(struct File);
+        for (int i = 0; i < 7; i++) t[i] = malloc(sz);
+        for (int i = 0; i < 7; i++) free(t[i]); }
+      void* prev_addr = NULL; int prev_kind = 3;
+      for (int step = 0; step < 3; step++) {
+        volatile int kd = kinds[step], fi = (rot + step) % NRFMT, st = (step + rot) & 1 ? PLEN : 0;
+        vf_watchdog(60);
+        vf_set_cur("recycle seq=%d rot=%d | sinks %s, %s, %s; at step %d: %s after %s, format \"%s\" at %d",
+          sq, rot, RKIND[kinds[0]], RKIND[kinds[1]], RKIND[kinds[2]], step, RKIND[kd], RKINDL[prev_kind], RFMT[fi], st);
+        FILE* fp = NULL;
+        if (kd == 0) { fseeko(ffp, 0, SEEK_SET); fwrite(PREFIX, 1, PLEN, ffp); }
+        /* ---- create the sink: nothing has been formatted since the previous one was released ---- */
+        var sink = kd == 2 ? (var)new_raw(String, PFX) : (var)new_raw(File);
+        steps++;
+        if ((void*)sink == prev_addr) { reused++; if ((prev_kind == 2) != (kd == 2)) { reused_other_type++; if (count_nt) vf.nontrivial++; } }
+        volatile int r1 = -77777, r2 = -77777;
+        var e = VF_CATCH({
+          if (kd == 0) ((struct File*)sink)->file = ffp;
+          if (kd == 1) { sopen(sink, pathS, modeS); fwrite(PREFIX, 1, PLEN, ((struct File*)sink)->file); }
+          r1 = print_to_with(sink, st, RFMT[fi], targs[fi]);
+          if (r1 >= 0 && r1 < 100000) r2 = print_to_with(sink, r1, "<%i>", t99);
+        });
+        vf.executions += 2; vf.evaluations++;
+        size_t gl = 0; int pok = 1;
+        got[0] = 0;
+        if (!e) {
+          if (kd == 2) {
+            const char* g = c_str(sink); size_t l = strlen(g);
+            pok = l >= (size_t)st && memcmp(g, PREFIX, st) == 0;
+            gl = pok ? l - st : l; if (gl >= sizeof got) gl = sizeof got - 1;
+            memcpy(got, g + (pok ? st : 0), gl); got[gl] = 0;
+          } else {
+            fp = ((struct File*)sink)->file;
+            off_t end = ftello(fp); fflush(fp);
+            static char fb[4096];
+            size_t n = 0;
+            if (kd == 0) { n = (size_t)end < sizeof fb ? (size_t)end : sizeof fb - 1; memcpy(fb, mbuf, n); }
+            else { FILE* rf = fopen(path, "r"); if (rf) { n = fread(fb, 1, sizeof fb - 1, rf); fclose(rf); } }
+            pok = n >= PLEN && memcmp(fb, PREFIX, PLEN) == 0;
+            gl = pok ? n - PLEN : n;
+            memcpy(got, fb + (pok ? PLEN : 0), gl); got[gl] = 0;
+          }
+        }
+        size_t tl = rtl[fi], xl = tl + 4;
+        const char* sym = NULL; char symb[64];
+        if (e) { snprintf(symb, sizeof symb, "raises-%s", vf_exc_name(e)); sym = symb; }
+        else if (!pok) sym = "prefix-damaged";
+        else if (gl != xl || memcmp(got, rexp[fi], xl) != 0) sym = "text-differs";
+        else if (r1 != st + (int)tl) sym = "position";
+        else if (r2 != st + (int)xl) sym = "follow-up-position";
+        if (sym) {
+          char lab[200];
+          snprintf(lab, sizeof lab, "recycle/%s-after-%s/%s/%s", RKINDL[kd], RKINDL[prev_kind], RFMTN[fi], sym);
+          vf_violation(lab, NULL, "a fresh %s created right after a %s was released (%s address): print_to(sink, %d, \"%s\") then \"<%%i>\" wrote '%s', returned %d then %d; expected '%s', %d then %d",
+            RKIND[kd], RKINDL[prev_kind], (void*)sink == prev_addr ? "same" : "different", st, RFMT[fi], printable(got, gl), (int)r1, (int)r2,
+            printable(rexp[fi], xl), st + (int)tl, st + (int)xl);
+        }
+        if (vf_want_sample()) vf_sample("recycle: %s after %s (%s address), \"%s\" at %d -> '%s'", RKIND[kd], RKINDL[prev_kind],
+          (void*)sink == prev_addr ? "same" : "different", RFMT[fi], st, printable(rexp[fi], xl));
+        /* ---- release it; the next sink is created immediately afterwards ---- */
+        prev_addr = (void*)sink; prev_kind = kd;
+        if (kd == 0) ((struct File*)sink)->file = NULL;      /* the shared stream stays open */
+        var e2 = VF_CATCH(del_raw(sink));
+        if (e2) vf_violation("recycle/release-raises", NULL, "del_raw of the %s sink raised %s", RKIND[kd], vf_exc_name(e2));
+      }
+    }
+  }
+  unlink(path);
+  vf_extra("recycle_sinks_created", "%" PRIu64, steps);
+  vf_extra("recycle_address_reused", "%" PRIu64, reused);
+  vf_extra("recycle_address_reused_by_other_sink_type", "%" PRIu64, reused_other_type);
+  if (reused_other_type == 0) vf_note("the allocator of this build never handed a released sink's address to a sink of the other type (quarantine): the stale-address situation was not reached here");
+}
+
 /* ---- main ---------------------------------------------------------------------------------- */
 
 static void parse_replay(const char* r) {
@@ -1033,6 +1271,11 @@ static void parse_replay(const char* r) {
   if ((p = strstr(r, " k="))) R_k = atoi(p + 3);
   if ((p = strstr(r, " n="))) R_n = atoi(p + 3);
   if ((p = strstr(r, " form="))) R_form = atoi(p + 6);
+  if ((p = strstr(r, " len="))) R_len = atoi(p + 5);
+  if ((p = strstr(r, " seq="))) R_seq = atoi(p + 5);
+  if ((p = strstr(r, " style="))) R_style = atoi(p + 7);
+  if ((p = strstr(r, " rot="))) R_rot = atoi(p + 5);
+  if (strncmp(r, "repeat", 6) == 0 || strncmp(r, "recycle", 7) == 0) return;
   if (strncmp(r, "ladder", 6) == 0) return;
   if ((p = strstr(r, "h="))) R_h = atoi(p + 2);
 }
@@ -1063,7 +1306,7 @@ int main(int argc, char** argv) {
   SS = new_raw(String);
   PFX = new_raw(String, $S(PREFIX));
   file_is_tmp = vf_param_is("file", "tmpfile", "memstream");
-  if (strcmp(mode, "ladder") == 0 || (vf.replay && strncmp(vf.replay, "ladder", 6) == 0)) file_is_tmp = 0;   /* the ladder opens both */
+  if (strcmp(mode, "ladder") == 0 || strcmp(mode, "recycle") == 0 || (vf.replay && (strncmp(vf.replay, "ladder", 6) == 0 || strncmp(vf.replay, "recycle", 7) == 0))) file_is_tmp = 0;   /* the ladder opens both */
   if (file_is_tmp) ffp = tmpfile(); else ffp = open_memstream(&mbuf, &msize);
   if (!ffp) { perror("h_fmt: cannot create the File sink"); _exit(2); }
   FF = $(File, ffp);
@@ -1073,12 +1316,19 @@ int main(int argc, char** argv) {
     if (strncmp(vf.replay, "missing", 7) == 0) mode = "missing";
     else if (strncmp(vf.replay, "show", 4) == 0) mode = "show";
     else if (strncmp(vf.replay, "ladder", 6) == 0) mode = "ladder";
+    else if (strncmp(vf.replay, "repeat", 6) == 0) mode = "repeat";
+    else if (strncmp(vf.replay, "recycle", 7) == 0) mode = "recycle";
     else if (R_v >= 1000) { mode = "show"; R_h = R_v - 1000; R_v = -1; }
     else mode = "grid";
   }
 
   if (strcmp(mode, "ladder") == 0) {
     ladder_mode();
+  } else if (strcmp(mode, "repeat") == 0) {
+    repeat_mode();
+  } else if (strcmp(mode, "recycle") == 0) {
+    vf.phase = "recycle";
+    recycle_mode();
   } else if (strcmp(mode, "show") == 0) {
     show_mode();
     vf_extra("container_shapes", "%d", NSHAPES_ALL);
@@ -1090,7 +1340,7 @@ int main(int argc, char** argv) {
     vf_extra("specifications", "%" PRIu64, n_specs);
     vf_extra("spec_value_pairs", "%" PRIu64, n_pairs);
   }
-  if (strcmp(mode, "ladder") != 0) vf_extra("grid", "\"%s: %d widths x %d precisions, value level <= %d, 8 contexts, %d starts, 2 sinks (File over %s)\"",
+  if (strcmp(mode, "grid") == 0 || strcmp(mode, "show") == 0 || strcmp(mode, "missing") == 0) vf_extra("grid", "\"%s: %d widths x %d precisions, value level <= %d, 8 contexts, %d starts, 2 sinks (File over %s)\"",
     grid, nW, nP, maxlevel, nStart, file_is_tmp ? "tmpfile" : "open_memstream");
   vf_finish();
   return 0;
